@@ -1175,6 +1175,7 @@ COMMON_THEOREMS = [
 
 THEOREMS = {
     "C01": ["Iauthd.Properties.C01_invariant", "Iauthd.Properties.C01_verdict_removes", "Iauthd.Properties.C01_unknown_id_inert",
+            "Iauthd.Properties.C01_names_live", "Iauthd.Properties.C01_timeout_names", "Iauthd.Proto.reqEvent_emits", "Iauthd.Proto.xqReply_emits",
             "Iauthd.Proto.accept_spec", "Iauthd.Proto.kill_spec", "Iauthd.Proto.gate_spec", "Iauthd.Proto.reqEvent_spec",
             "Iauthd.Proto.xqReply_spec", "Iauthd.Proto.withReq_inv"],
     "C02": ["Iauthd.Properties.C02_counters", "Iauthd.Properties.C02_gate", "Iauthd.Properties.C02_gate_sets",
@@ -1222,7 +1223,7 @@ def lean_targets(prop):
 
 
 def lean_modules(prop):
-    return ["Iauthd.Proto.Text", "Iauthd.Proto.Model", "Iauthd.Proto.Handlers", "Iauthd.Proto.Step", "Iauthd.Proto.Hist", "Iauthd.Proto.Proofs", "Iauthd.Proto.Table", "Iauthd.Proto.Props", "Iauthd.Proto.Holds", "Iauthd.Properties." + prop]
+    return ["Iauthd.Proto.Text", "Iauthd.Proto.Model", "Iauthd.Proto.Handlers", "Iauthd.Proto.Step", "Iauthd.Proto.Hist", "Iauthd.Proto.Proofs", "Iauthd.Proto.Table", "Iauthd.Proto.Props", "Iauthd.Proto.Holds", "Iauthd.Proto.Chunk", "Iauthd.Proto.Names", "Iauthd.Properties." + prop]
 
 
 def checker_cmd(prop):
